@@ -36,6 +36,8 @@ def is_decode_guard(g):
 def norm_guard(g):
     """(E - P) < 1  ==>  P == E for unsigned distances; equality operands in canonical order."""
     expr, val = g
+    if isinstance(val, bool):
+        expr, val = symex.canon_guard(expr, val)     # `1 <= E - P` taken is `E - P < 1` not taken
     if isinstance(expr, tuple) and expr[0] == "cmp":
         op, a, b = expr[1], expr[2], expr[3]
         if op == "<" and b == ("int", 1) and isinstance(a, tuple) and a[0] == "lin" and a[1] == 0 and len(a[2]) == 2:
